@@ -151,6 +151,7 @@ func (fr *Frame) run(st *State, args []*Val) (*State, []*Val) {
 			phiVals[phi] = v
 		}
 		cur := x.mergeStates(sts)
+		x.vc.pcNow = cur.pc
 		for phi, v := range phiVals {
 			fr.regs[phi] = x.defVal(phi.Name(), v)
 		}
@@ -195,6 +196,7 @@ func (fr *Frame) run(st *State, args []*Val) (*State, []*Val) {
 				}
 			}
 			c := fr.val(cur, t.Cond).T()
+			x.vc.pcNow = cur.pc
 			thenSt := cur.clone()
 			thenSt.pc = x.vc.def("pc", sBool, tAnd(cur.pc, c))
 			elseSt := cur
@@ -614,6 +616,7 @@ func (fr *Frame) enterLoop(st *State, li *loopInfo) {
 		st.cells[c] = nv
 	}
 	st.pc = x.vc.def("pc", sBool, st.pc)
+	x.vc.pcNow = st.pc
 	fr.autoLoopFacts(st, li)
 	for _, c := range invs {
 		env := fr.loopEnv(st, li).assuming()
